@@ -723,6 +723,13 @@ class Table(Vector):
 			f'Table indices must be column names, integers, slices, boolean vectors or integer vectors, not {type(key).__name__}'
 		)
 
+	def _stored_name_index(self, name):
+		"""Position of the first column whose stored name is exactly `name`, or None."""
+		for i, col in enumerate(self._underlying):
+			if col._name == name:
+				return i
+		return None
+
 	def __setitem__(self, key, value):
 		"""
 		Support for 2D assignment:
@@ -753,9 +760,12 @@ class Table(Vector):
 		elif isinstance(col_spec, int):
 			target_indices = [col_spec]
 		elif isinstance(col_spec, str):
-			# Look up by name (map refreshed if a column was renamed)
-			column_map = self._current_column_map()
-			idx = column_map.get(col_spec) or column_map.get(col_spec.lower())
+			# Look up by name, like t[name]: the exact stored name first (first occurrence),
+			# then the accessor names (map refreshed if a column was renamed)
+			idx = self._stored_name_index(col_spec)
+			if idx is None:
+				column_map = self._current_column_map()
+				idx = column_map.get(col_spec) or column_map.get(col_spec.lower())
 			if idx is None:
 				raise SerifKeyError(f"Column '{col_spec}' not found")
 			target_indices = [idx]
@@ -764,7 +774,9 @@ class Table(Vector):
 			column_map = self._current_column_map()
 			for c in col_spec:
 				if isinstance(c, str):
-					idx = column_map.get(c) or column_map.get(c.lower())
+					idx = self._stored_name_index(c)
+					if idx is None:
+						idx = column_map.get(c) or column_map.get(c.lower())
 					if idx is None:
 						raise SerifKeyError(f"Column '{c}' not found")
 					target_indices.append(idx)
